@@ -169,6 +169,24 @@ func envelopeEvent(c *ctx) M {
 		ev[name+"_kek"] = bs(k)
 	}
 	if label != "" {
+		// the caller rotates the KEK IN PLACE (same buffer, same label, same length) and wraps again: the second envelope is
+		// the wrapping under the new KEK
+		for i := range kek {
+			kek[i] ^= byte(1 + c.rnd.Intn(255))
+		}
+		ev["kek"] = bs(kek)
+		env = nil
+		r2, _ := observeFast(func() error {
+			var err error
+			env, err = backend.NewKeyEnvelope(label, kek, key)
+			return err
+		})
+		ev["err"] = r2
+		if r2 != "" || env == nil {
+			return ev
+		}
+		ev["envlabel"] = env.KEKLabel != ""
+		ev["aeskey"] = bs(env.AESKey)
 		try("unwrap", kek, env.AESKey)
 		t := append([]byte{}, env.AESKey...)
 		t[c.rnd.Intn(len(t))] ^= 1 << uint(c.rnd.Intn(8))
